@@ -44,20 +44,21 @@ TRUSTED = ["MeatAndDairy/FeedAndBiofuels instances of compute_parameters_first_r
 def correspondence(ctx):
     rng = ctx.rng
     k = ctx.budget(1, 12)
-    cases = [S.gen_constants(rng) for _ in range(220 * k)]
-    bad = [S.gen_constants(rng, wellformed=False) for _ in range(60 * k)]
+    cases = [S.gen_constants(rng) for _ in range(400 * k)]
+    bad = [S.gen_constants(rng, wellformed=False) for _ in range(100 * k)]
     S.check_crops(ctx, cases + bad, "C08")
-    S.variant_checks(ctx, cases[:80 * k], "C08")
-    S.check_other_series(ctx, [S.gen_constants(rng) for _ in range(160 * k)])
+    S.variant_checks(ctx, cases[:150 * k], "C08")
+    S.check_other_series(ctx, [S.gen_constants(rng) for _ in range(300 * k)])
     rows = S.country_rows(ctx)
     if ctx.quick:
-        rows = rng.sample(rows, 14)
+        rows = rng.sample(rows, 30)
         opts = S.gen_options(rng, 5) + [dict(S.BASE_OPTION, scenario=s) for s in rng.sample(S.SCENARIOS, 3)]
     else:
         opts = S.gen_options(rng, 6) + [dict(S.BASE_OPTION, scenario=s) for s in S.SCENARIOS]
     ctx.extra["rows"] = len(rows)
     ctx.extra["option_sets_per_row"] = len(opts)
     S.check_real_rows(ctx, rows, opts, "C08")
+    S.check_real_rows(ctx, [None], S.gen_world_options(rng, ctx.budget(6, 40)), "C08")  # the world aggregate
 
 
 def search(ctx):
